@@ -202,7 +202,7 @@ fn inotify_probe(base: &std::path::Path) -> Result<(), String> {
 }
 
 /// `vcore::run_prop_parallel` with a smaller shrink budget (a case costs ~0.1 s of real waiting).
-fn run_parallel<S, F, M>(report: &Report, name: &str, cases: u32, workers: usize, make: M, f: F) -> Option<(S::Value, Fail)>
+fn run_parallel<S, F, M>(report: &Report, name: &str, cases: u32, workers: usize, shrink_iters: u32, make: M, f: F) -> Option<(S::Value, Fail)>
 where
     S: proptest::strategy::Strategy,
     S::Value: Clone + Send,
@@ -219,7 +219,7 @@ where
                 let seed = vcore::derive_seed(report.seed, name, w as u64);
                 scope.spawn(move || {
                     let mut config = vcore::proptest_config(seed, per);
-                    config.max_shrink_iters = 200;
+                    config.max_shrink_iters = shrink_iters;
                     let mut runner = TestRunner::new(config);
                     let last: std::sync::Mutex<Option<Fail>> = std::sync::Mutex::new(None);
                     let result = runner.run(&make(), |v| match report.tolerate(f(&v)) {
@@ -374,6 +374,7 @@ fn main() {
         "histories",
         sequences,
         workers,
+        200,
         || hist::ascript(6),
         |a: &hist::AScript| {
             let (script, rs) = hist::resolve(a, &exclude);
@@ -454,6 +455,8 @@ fn main() {
             "process-histories",
             histories,
             workers,
+            // a case costs seconds of real waiting
+            8,
             || (hist::ascript(4), proptest::bool::weighted(0.5), 0u8..200),
             |a: &(hist::AScript, bool, u8)| {
                 let script = build(a);
